@@ -109,7 +109,7 @@ pub trait BaseVector<T: RealNumber>: Sized + Clone {
             invariant self.vview().len() == old(self).vview().len(), VERUS_ghost_iter.iter.end == self.vview().len(),
                 forall|k: int| 0 <= k < i ==> self.vview()[k] == old(self).vview()[k].add_spec(x),
                 forall|k: int| i <= k < self.vview().len() ==> self.vview()[k] == old(self).vview()[k],
-//@before self.set(i, self.get(i) + x);
+//@loopbody 1
             proof { T::ops_total(); }
 //@end
 
@@ -124,7 +124,7 @@ pub trait BaseVector<T: RealNumber>: Sized + Clone {
             invariant self.vview().len() == old(self).vview().len(), VERUS_ghost_iter.iter.end == self.vview().len(),
                 forall|k: int| 0 <= k < i ==> self.vview()[k] == old(self).vview()[k].sub_spec(x),
                 forall|k: int| i <= k < self.vview().len() ==> self.vview()[k] == old(self).vview()[k],
-//@before self.set(i, self.get(i) - x);
+//@loopbody 1
             proof { T::ops_total(); }
 //@end
 
@@ -139,7 +139,7 @@ pub trait BaseVector<T: RealNumber>: Sized + Clone {
             invariant self.vview().len() == old(self).vview().len(), VERUS_ghost_iter.iter.end == self.vview().len(),
                 forall|k: int| 0 <= k < i ==> self.vview()[k] == old(self).vview()[k].mul_spec(x),
                 forall|k: int| i <= k < self.vview().len() ==> self.vview()[k] == old(self).vview()[k],
-//@before self.set(i, self.get(i) * x);
+//@loopbody 1
             proof { T::ops_total(); }
 //@end
 
@@ -154,7 +154,7 @@ pub trait BaseVector<T: RealNumber>: Sized + Clone {
             invariant self.vview().len() == old(self).vview().len(), VERUS_ghost_iter.iter.end == self.vview().len(),
                 forall|k: int| 0 <= k < i ==> self.vview()[k] == old(self).vview()[k].div_spec(x),
                 forall|k: int| i <= k < self.vview().len() ==> self.vview()[k] == old(self).vview()[k],
-//@before self.set(i, self.get(i) / x);
+//@loopbody 1
             proof { T::ops_total(); }
 //@end
 
@@ -234,7 +234,7 @@ pub trait BaseVector<T: RealNumber>: Sized + Clone {
         proof { T::ops_total(); }
 //@loop 1
             invariant n == self.vview().len(), mu == vsum(self.vview(), i as int), sum == vsumsq(self.vview(), i as int),
-//@before let xi = self.get(i);
+//@loopbody 1
             proof { T::ops_total(); }
 //@end
 //@extract src/linalg/mod.rs :: pub trait BaseVector<T: RealNumber>: Clone + Debug :: std :: ret=r
